@@ -53,7 +53,7 @@ func canonArg(v string) string {
 
 func checkC14(c *core.Ctx) {
 	c.Assume = append(c.Assume,
-		"judged keys: every scalar field of the configuration struct of kind float, int, text or on/off (found by reflection); enumeration-typed keys (Dateformat, GroundWaterFrom) and the three keys whose default is derived from other values (WeatherFolder, WeatherRootFolder, ResultFileExt) are not judged",
+		"judged keys: every scalar field of the configuration struct of kind float, int, text or on/off (found by reflection); enumeration-typed keys (Dateformat, GroundWaterFrom) and WeatherRootFolder (default = working directory) are not judged; ResultFileExt and WeatherFolder are judged with their documented derived defaults (extension of the effective result style; 'Weather')",
 		"values are compared in a canonical rendering; no key occurs twice on a line (order would matter by construction)")
 	worker, err := c.BuildWorker(false)
 	if err != nil {
@@ -63,6 +63,12 @@ func checkC14(c *core.Ctx) {
 	r := c.TLC(core.TLCOpts{Module: "MC_Config", Cfg: "Config_design.cfg", Kind: "design", Workers: 8, Timeout: 10 * time.Minute})
 	if !r.OK() {
 		c.Machineryf("design-level configuration model: exit=%d %s\n%s", r.Exit, r.Violated, r.Tail(12))
+	}
+	// control: deriving the default of the derived key before the line is applied must be refuted
+	u := c.TLC(core.TLCOpts{Module: "MC_Config", Cfg: "Config_design_early.cfg", Kind: "design-control", Workers: 8, Timeout: 10 * time.Minute})
+	c.Cover("design_control_derived_default_before_line_refuted", u.Violated == "Precedence")
+	if u.Violated != "Precedence" {
+		c.Machineryf("control failed: a derived default filled in before the batch line is applied should violate Precedence (exit=%d)", u.Exit)
 	}
 	// (a) the real readConfig for every key, seeded subsets
 	dir := c.Sub("kconfig")
@@ -86,6 +92,9 @@ func checkC14(c *core.Ctx) {
 		base.Cfg.End = base.Rotation[0].Harv + 3
 		base.Cfg.AnnualM, base.Cfg.AnnualD = 1, 2
 		base.Cfg.LeachDm = 4
+		if i%2 == 0 {
+			base.Cfg.ResultExt = "" // no extension in the project file: the default follows the result style in use
+		}
 		args := map[string]string{}
 		var toks []string
 		for _, k := range e2eKeys {
@@ -125,6 +134,24 @@ func checkC14(c *core.Ctx) {
 		if all == nil {
 			c.Machineryf("run %s did not reach run.config (exit %d): %s", rc.P.Name, rc.Exit, rc.Stderr)
 			continue
+		}
+		// the extension of the result files actually written (derived default: the effective result style)
+		{
+			effFmt := strconv.Itoa(vars[i].p.Cfg.ResultFormat)
+			if a, ok := vars[i].args["ResultFileFormat"]; ok {
+				effFmt = a
+			}
+			def := "RES"
+			if effFmt == "1" {
+				def = "csv"
+			}
+			ext := "none"
+			if ents, err := filepath.Glob(filepath.Join(rc.Root, "RESULT_"+rc.P.Name, "Y*")); err == nil && len(ents) > 0 {
+				ext = strings.TrimPrefix(filepath.Ext(ents[0]), ".")
+			}
+			w.Write(map[string]interface{}{"ev": "cfg", "case": 100000 + i, "key": "ResultFileExt", "kind": "e2e-files", "def": def, "hasFile": vars[i].p.Cfg.ResultExt != "", "file": vars[i].p.Cfg.ResultExt,
+				"hasArg": false, "arg": "", "eff": ext, "run": rc.P.Name, "derived": true})
+			e2e++
 		}
 		for _, k := range e2eKeys {
 			ev := map[string]interface{}{"ev": "cfg", "case": 100000 + i, "key": k.name, "kind": "e2e", "def": "", "hasFile": true, "file": canonArg(k.file(vars[i].p)), "eff": fmt.Sprint(all[k.name]), "run": rc.P.Name}
